@@ -26,14 +26,6 @@ func c18TemplateFuzzer(seed int64) *fuzz.Fuzzer {
 	f.Funcs(
 		// integers within the range pod validation accepts (the patch is round-tripped through float64)
 		func(i *int64, c fuzz.Continue) { *i = int64(c.Intn(1 << 31)) },
-		func(i **int64, c fuzz.Continue) {
-			if c.RandBool() {
-				v := int64(c.Intn(1 << 31))
-				*i = &v
-			} else {
-				*i = nil
-			}
-		},
 	)
 	return f
 }
@@ -134,7 +126,15 @@ func runC18Behaviour(ctx *Ctx) *Result {
 			res.Inconclusive = append(res.Inconclusive, fmt.Sprintf("case %d: Upgrade did not succeed", i))
 			continue
 		}
-		srv.RunGC()
+		// the garbage collector orphans the dependents of the deleted built-in set in no particular order:
+		// in a third of the runs the pods are released first and the controller reconciles in that window
+		window := r.Intn(3) == 0
+		if window {
+			srv.RunGCOn(simapi.Pods)
+			res.Stats["migrations_with_gc_window"]++
+		} else {
+			srv.RunGC()
+		}
 		res.Evaluations++
 		res.Stats["migrations"]++
 		if bw.Updated < bw.Replicas {
@@ -156,7 +156,7 @@ func runC18Behaviour(ctx *Ctx) *Result {
 				if c.IsWrite() {
 					s += "\n      " + c.String()
 				}
-				if c.Res == simapi.Revisions && c.Verb == "create" {
+				if c.Res == simapi.Revisions && c.Verb == "create" && c.OK() {
 					report("revision-created-after-migration", "after the migration the controller created a new ControllerRevision: "+c.String())
 				}
 				if c.Res == simapi.Pods && c.Verb == "delete" {
@@ -179,6 +179,13 @@ func runC18Behaviour(ctx *Ctx) *Result {
 			if rec.Err == nil && rec.Set != nil {
 				res.Stats["post_migration_reconciles"]++
 			}
+		}
+		if window {
+			for k := 0; k < 3; k++ {
+				w.DeliverAll()
+				run.Reconcile(bw.Name)
+			}
+			srv.RunGC()
 		}
 		cr := run.Calm(3)
 		if !cr.Converged {
@@ -236,5 +243,5 @@ func init() {
 		Assume: simAssumptions,
 		Cases:  func(t string) int { return nb(t) + scenarioCases(1600, 24000)(t) },
 		Run:    both(runC18Bytes, nb, runC18Behaviour),
-		Floors: []string{"byte_comparisons", "templates_with_containers", "migrations", "migrations_mid_rollout", "migrations_interrupted_once", "marker_revisions_checked", "post_migration_reconciles", "history_length_3"}})
+		Floors: []string{"byte_comparisons", "templates_with_containers", "migrations", "migrations_mid_rollout", "migrations_interrupted_once", "marker_revisions_checked", "post_migration_reconciles", "history_length_3", "migrations_with_gc_window"}})
 }
